@@ -395,6 +395,21 @@ def f_tet_hdiv():
     return u
 
 
+def f_quadratic_mesh():
+    """Non-affine (P2) coordinate element: the integral scaling factor has a non-zero degree."""
+    u = U()
+    m = ufl.Mesh(E.P("triangle", 2, (2,)))
+    u.mesh = m
+    V = FunctionSpace(m, E.P("triangle", 2))
+    tr_, te = TrialFunction(V), TestFunction(V)
+    f = Coefficient(V)
+    md = u.w("md0", {"quadrature_degree": 4, "rule": {"pts": [[0.25, 0.25]], "w": np.array([0.5])}})
+    u.make = (
+        lambda: f * inner(grad(tr_), grad(te)) * dx(metadata=md) + inner(tr_, te) * ds(1) + f * inner(tr_, te) * dx(2)
+    )
+    return u
+
+
 def f_empty():
     u = U()
     _spaces(u)
@@ -503,6 +518,95 @@ def i_integral():
     return u
 
 
+# -------------------------------------------------------------------------------------------------
+# base forms (Action / FormSum / Adjoint / Matrix / Cofunction) and forms with base form operators
+# -------------------------------------------------------------------------------------------------
+def _bf_universe():
+    from ufl.classes import Cofunction, Matrix
+
+    u = U()
+    m = _spaces(u)
+    V = FunctionSpace(m, E.P("triangle", 1))
+    u.t.update(
+        V=V,
+        M=Matrix(V, V),
+        M2=Matrix(V, V),
+        u=Coefficient(V),
+        g=Coefficient(V),
+        c=Cofunction(V.dual()),
+        v=TestFunction(V),
+        w=TrialFunction(V),
+    )
+    return u
+
+
+def b_action():
+    from ufl.classes import Action
+
+    u = _bf_universe()
+    t = u.t
+    u.make = lambda: Action(t["M"], t["u"])
+    return u
+
+
+def b_nested_action():
+    from ufl.classes import Action
+
+    u = _bf_universe()
+    t = u.t
+    u.make = lambda: Action(t["M"], Action(t["M2"], t["u"]))
+    return u
+
+
+def b_formsum():
+    from ufl.classes import Action
+
+    u = _bf_universe()
+    t = u.t
+    md = u.w("md0", {"quadrature_degree": 2, "opts": [1, {"k": [2]}]})
+    u.make = lambda: t["g"] * t["v"] * dx(metadata=md) + t["c"] + 2 * Action(t["M"], t["u"])
+    return u
+
+
+def b_adjoint():
+    from ufl.classes import Adjoint
+
+    u = _bf_universe()
+    t = u.t
+    u.make = lambda: Adjoint(t["M"])
+    return u
+
+
+def f_external_operator():
+    from ufl.classes import ExternalOperator
+
+    u = _bf_universe()
+    t = u.t
+    md = u.w("md0", {"quadrature_degree": 2, "opts": [1, {"k": [2]}]})
+
+    def mk():
+        N = ExternalOperator(t["u"], t["g"], function_space=t["V"])
+        t["N"] = N
+        return N * t["v"] * dx(metadata=md) + t["u"] * t["g"] * t["v"] * dx
+
+    u.make = mk
+    return u
+
+
+def f_interpolate():
+    from ufl.classes import Interpolate
+
+    u = _bf_universe()
+    t = u.t
+
+    def mk():
+        Iu = Interpolate(t["u"] ** 2, t["V"])
+        return Iu * t["v"] * dx + t["g"] * t["v"] * ds
+
+    u.make = mk
+    return u
+
+
 INPUTS = {
     "mass": f_mass,
     "poisson_md": f_poisson_md,
@@ -525,6 +629,7 @@ INPUTS = {
     "interval_vertex": f_interval_vertex,
     "manifold": f_manifold,
     "tet_hdiv": f_tet_hdiv,
+    "quadratic_mesh": f_quadratic_mesh,
     "empty": f_empty,
     "expr_scalar": e_scalar,
     "expr_grad_index": e_grad_index,
@@ -535,6 +640,12 @@ INPUTS = {
     "expr_abs_dup": e_abs_dup,
     "expr_arg_linear": e_arg_linear,
     "integral": i_integral,
+    "bf_action": b_action,
+    "bf_nested_action": b_nested_action,
+    "bf_formsum": b_formsum,
+    "bf_adjoint": b_adjoint,
+    "extop_form": f_external_operator,
+    "interpolate_form": f_interpolate,
 }
 
 
